@@ -435,7 +435,15 @@ def ifm_fuse(V, kind):
     return cl
 
 
-FUNCS = {"ifm_fuse": ifm_fuse, "format_rules": format_rules, "buffering": buffering, "lut": lut, "wbuf": wbuf, "rolling": rolling, "lr_rolling": lr_rolling, "build_twice": build_twice, "memcpy": memcpy, "wbuf_sizes": wbuf_sizes}
+def rolling_dims(V, **params):
+    """the allocation of a rolling buffer (sized from rolling_buffer_shape) covers what the producer writes and the consumer reads: width,
+    16-channel bricks, rows (harness/c02.py rolling_dims); a smaller shape lets a neighbouring tensor overwrite rows still to be read"""
+    from harness import c02
+
+    return c02.rolling_dims(V, **params)
+
+
+FUNCS = {"rolling_dims": rolling_dims, "ifm_fuse": ifm_fuse, "format_rules": format_rules, "buffering": buffering, "lut": lut, "wbuf": wbuf, "rolling": rolling, "lr_rolling": lr_rolling, "build_twice": build_twice, "memcpy": memcpy, "wbuf_sizes": wbuf_sizes}
 
 
 def instances(tier, seed):
@@ -443,6 +451,7 @@ def instances(tier, seed):
     for accel in ("Ethos_U55_64", "Ethos_U55_128"):
         for n in (1, 2, 3, 4):
             out.append(dict(key="lut/%s/n%d" % (accel, n), fn="lut", params=dict(accel=accel, n=n), weight=10 ** n))
+    out.append(dict(key="rolling_dims", fn="rolling_dims", params={}))
     for kind in ("unary", "binary", "memcpy"):
         out.append(dict(key="ifm_fuse/%s" % kind, fn="ifm_fuse", params=dict(kind=kind), weight=20))
     for nslices in range(1, 8):
